@@ -49,6 +49,12 @@ func genM3Idents(r *mon.Rand, n int) []m3Ident {
 	for i := range tagsets {
 		tagsets[i] = genM3Tags(r)
 	}
+	if len(tagsets) >= 2 && r.Chance(1, 4) {
+		tagsets[0], tagsets[1] = map[string]string{"x=y": ""}, map[string]string{"x": "y="}
+		if r.Bool() {
+			tagsets[0], tagsets[1] = tagsets[1], tagsets[0]
+		}
+	}
 	out := make([]m3Ident, n)
 	for i := range out {
 		id := m3Ident{Name: names[r.Intn(len(names))], Tags: tagsets[r.Intn(len(tagsets))]}
